@@ -429,15 +429,17 @@ class Shim(object):
                 return None
             if not posixpath.lexists(s):
                 return None                      # let the kernel say ENOENT
+            # the kernel's order: the two PARENT directories on different
+            # mounts -> EXDEV; only then a mount point as source/target -> EBUSY
+            sv = self.volume_of(posixpath.dirname(s))
+            dv = self.volume_of(posixpath.dirname(d))
+            if sv != dv:
+                return errno.EXDEV
             if s in self.mounts and not posixpath.islink(s):
                 return errno.EBUSY
             if d in self.mounts and posixpath.lexists(d) and \
                     not posixpath.islink(d):
                 return errno.EBUSY
-            sv = self.volume_of(posixpath.dirname(s))
-            dv = self.volume_of(posixpath.dirname(d))
-            if sv != dv:
-                return errno.EXDEV
         elif name == 'rmdir' and paths and paths[0]:
             t = self._real_parent(paths[0])
             if t in self.mounts and not posixpath.islink(t) and \
